@@ -40,7 +40,7 @@ rm -f "$WT/$PKG/$(basename "$DEMO")"
 echo "== existing suite with patch" >>"$LOG"
 REPO_DIR="$WT" /verif/scripts/baseline_off.sh > "$DEST/suite.log" 2>&1; SUITE=$?
 FAILS=$(grep -E '^--- FAIL' "$DEST/suite.log" | awk '{print $3}' | sort -u | tr '\n' ' ')
-NONFLAKY=$(echo "$FAILS" | tr ' ' '\n' | grep -v -E '^(TestJoinFull.*|TestJoinLateExtra|TestLeaveRequest)?$' | tr '\n' ' ')
+NONFLAKY=$(echo "$FAILS" | tr ' ' '\n' | grep -v -E '^(TestJoinFull.*|TestJoinLateExtra|TestLeaveRequest|TestWebRTCStreamLayerWithWampSignal)?$' | tr '\n' ' ')
 cp "$SRC/patch.diff" "$DEST/patch.diff"
 cp "$DEMO" "$DEST/"
 cp "$SRC/demo_cmd.txt" "$DEST/" 2>/dev/null
